@@ -273,6 +273,12 @@ impl<Ix: SIx> Driver<Ix> {
             _ => (vec![], true, true),
         }
     }
+    pub fn find_edge_ix(&self, a: usize, b: usize) -> Option<usize> {
+        on!(&self.obj, g => g.find_edge(ni(a), ni(b)).map(|e| e.index()))
+    }
+    pub fn ac_order(&self) -> Vec<usize> {
+        self.ac_info().0
+    }
     pub fn counts(&self) -> (usize, usize, usize, usize) {
         on!(&self.obj, g => (g.node_count(), g.edge_count(), g.node_bound(), g.edge_bound()))
     }
@@ -770,7 +776,7 @@ impl<Ix: SIx> Driver<Ix> {
         if want_st || op.get("want_st").is_some() {
             ev["st"] = self.project();
         }
-        if name.starts_with("ac_") {
+        if name.starts_with("ac_") || (name == "restore" && self.is_acyclic_wrapped()) {
             let (ord, pos_inc, atpos_ok) = self.ac_info();
             ev["order"] = json!(ord);
             ev["pos_inc"] = json!(pos_inc);
@@ -1473,4 +1479,60 @@ where
         v.push(petgraph::data::Element::Edge { source: pos[&g.to_index(e.source())], target: pos[&g.to_index(e.target())], weight: e.weight().clone() });
     }
     v
+}
+
+/// AcyclicPK.tla -> implementation: every distinct state of the model comes with the history that reaches it.
+/// The history is replayed on the real Acyclic wrapper, the order the model predicts is compared (reported only:
+/// C14 does not fix which valid order is kept), and every call of the alphabet is forked from the reached state.
+pub fn accover_replay(scripts: &[Value], stride: usize, offset: usize, log: &mut Log, seed: u64) {
+    let mut rng = Rng::new(seed);
+    for (k, sc) in scripts.iter().enumerate() {
+        if k % stride != offset % stride {
+            continue;
+        }
+        let compact = sc["compact"].as_bool().unwrap();
+        let mut d: Driver<Ix7> = Driver::new("ix7");
+        d.apply(&json!({"op":"reset","kind": if compact {"graph"} else {"stable"},"directed":true,"ctor":"with_capacity"}), log, &mut rng);
+        d.apply(&json!({"op":"ac_wrap","via": if k % 2 == 0 {"try_from"} else {"try_from_graph"}}), log, &mut rng);
+        let translate = |d: &Driver<Ix7>, op: &Value| -> Option<Value> {
+            match op["op"].as_str().unwrap() {
+                "ac_add_node" => Some(json!({"op":"ac_add_node"})),
+                "ac_remove_edge_between" => d.find_edge_ix(u(op, "a"), u(op, "b")).map(|e| json!({"op":"ac_remove_edge","e":e})),
+                "ac_remove_node" => Some(json!({"op":"ac_remove_node","a":u(op, "a")})),
+                o => Some(json!({"op":o,"a":u(op, "a"),"b":u(op, "b")})),
+            }
+        };
+        let mut followed = true;
+        for op in sc["hist"].as_array().unwrap() {
+            match translate(&d, op) {
+                Some(o) => d.apply(&o, log, &mut rng),
+                None => { followed = false; break; }   // the real graph has no such edge: it already left the model's path
+            }
+        }
+        let want: Vec<usize> = sc["order"].as_array().unwrap().iter().map(|x| x.as_u64().unwrap() as usize).collect();
+        let agree = followed && d.ac_order() == want;
+        d.apply(&json!({"op":"obs"}), log, &mut rng);
+        d.apply(&json!({"op":"save","pk_agree":agree}), log, &mut rng);
+        let (_, _, nb, eb) = d.counts();
+        let mut fan: Vec<Value> = vec![json!({"op":"ac_add_node"})];
+        for a in 0..=nb.min(5) {
+            fan.push(json!({"op":"ac_remove_node","a":a}));
+        }
+        let live = d.live_nodes();
+        for &a in &live {
+            for &b in &live {
+                let which = ["ac_try_add_edge", "ac_try_update_edge", "ac_build_add_edge", "ac_build_update_edge"];
+                fan.push(json!({"op":which[(a + 2 * b + k) % 4],"a":a,"b":b}));
+                if a != b { fan.push(json!({"op":which[(a + 2 * b + k + 1) % 4],"a":a,"b":b})); }
+            }
+        }
+        for e in 0..=eb.min(7) {
+            fan.push(json!({"op":"ac_remove_edge","e":e}));
+        }
+        for (j, f) in fan.iter().enumerate() {
+            d.apply(&json!({"op":"restore"}), log, &mut rng);
+            d.apply(f, log, &mut rng);
+            if j % 2 == 0 { d.apply(&json!({"op":"obs"}), log, &mut rng); }
+        }
+    }
 }
